@@ -232,6 +232,40 @@ def evaluate_schema(s: ASchema, styles, gen_name, ctx: Ctx):
     return out
 
 
+def decoy_of(s: ASchema) -> ASchema:
+    """A document with the same names but the opposite type resolutions (enum <-> plain) that is rejected while
+    the database is built (a reference to a table that does not exist)."""
+    import copy
+    d = copy.deepcopy(s)
+    d.enums = []
+    plain_words = []
+    for t in d.tables:
+        for c in t.columns:
+            c.refs = []
+            if c.type[0] == 'enum':
+                c.type = ('plain', c.type[2] if c.type[1] == 'public' else f'{c.type[1]}.{c.type[2]}')
+            elif c.type[1].isidentifier() and c.type[1].isascii() and c.type[1].lower() not in RESERVED:
+                plain_words.append(c.type[1])
+                c.type = ('enum', 'public', c.type[1])
+    for w in sorted(set(plain_words)):
+        d.enums.append(AEnum('public', w, [AEnumItem('decoy_item')]))
+    d.refs = [ARef('>', d.tables[0].key, [d.tables[0].columns[0].name], ('public', 'no such table'), ['id'])] if d.tables else []
+    d.groups, d.layout = [], []
+    return d
+
+
+def after_failed_build(s: ASchema, style, ctx: Ctx):
+    from pydbml import PyDBML
+    if s.tables:
+        dtext, _ = write(decoy_of(s), Style())
+        try:
+            PyDBML.parse(dtext, allow_properties=True) if s.allow_properties else PyDBML.parse(dtext)
+            ctx.extra['decoy_accepted'] = ctx.extra.get('decoy_accepted', 0) + 1
+        except Exception:  # noqa -- expected: the decoy is rejected
+            pass
+    return evaluate_schema(s, [style], 'after-failed-build', ctx)
+
+
 # ---------------------------------------------------------------------------------------------
 # layer (i): exhaustive per-element products
 
@@ -382,6 +416,10 @@ def shard(ctx: Ctx):
         return s, [Style(), st1, st2]
 
     hyp_run(ctx, 'docs', cases(), lambda c: evaluate_schema(c[0], c[1], 'sampled', ctx), n)
+
+    # (ii-b) the same, but right after a *related* document was rejected while the database was being built:
+    # the result depends only on the document, not on what the parser saw before
+    hyp_run(ctx, 'after-failed-build', cases(), lambda c: after_failed_build(c[0], c[1][1], ctx), max(10, n // 3))
 
     # (iii) zone arms: trigger of an open destructive finding forced in
     for feat, fid in DESTRUCTIVE.items():
